@@ -449,7 +449,14 @@ def check_urlset(ctx, prog):
     where = fwhere(f)
     for mode in (0, 1):
         try:
-            table, _ = emit.emit_table(prog, f, out_pred=lambda x: x.get('k') == 'var' and x.get('id') in out_ids, extra_env={comp['id']: mode})
+            try:
+                # primary: the whole function interpreted on every one-byte string and on short strings (helpers followed)
+                table, _, issues = emit.interp_table_ret(prog, f, fixed={[p_['id'] for p_ in f['params']].index(comp['id']): mode})
+                ctx.check(not issues, 'C15.urlset', f['pq'], 'encode:what is written for a byte does not depend on its neighbours (%s)' % ('component mode' if mode else 'full-URL mode'), where,
+                          'strings of 2 and 3 bytes are encoded byte by byte', 'Url::encode writes %r for %r, byte by byte it would be %r' % (
+                              (bytes(issues[0][1]), bytes(issues[0][0]), bytes(issues[0][2])) if issues else (b'', b'', b'')))
+            except emit.Unresolved:
+                table, _ = emit.emit_table(prog, f, out_pred=lambda x: x.get('k') == 'var' and x.get('id') in out_ids, extra_env={comp['id']: mode})
         except emit.Unresolved as u:
             if 'outside table' in str(u):
                 ctx.violation('C15.urlset', f['pq'], 'encode:escaped byte written as %HL', where, 'a hex digit table is indexed out of range while escaping: %s (the byte is not treated as an unsigned value: escaped bytes >= 0x80 come out as garbage)' % u)
